@@ -15,7 +15,7 @@
     * C10_unique_string_terminates    the fuel passed to the recursive unique_string suffices
     * C10_identifiers_unique_valid    generated names are pairwise distinct valid symbols, MIN/MAX
                                       bracket each group, numbers run from 1
-    * C10_linker_idempotent_query     queries leave no trace (true after fix 795bab9)
+    * C10_linker_idempotent_query     queries leave no trace (true after fix 81bf063)
     * C10_pcm_region_sound_partial    one PCM header (any start offset) re-homed by add_song: the
                                       bank entry is the header of a window whose bytes are the
                                       sample's playback window — PARTIAL: extra hypotheses fewer
@@ -330,7 +330,7 @@ example : headerDefs exHeaderLinker =
 
 /-- Queries leave no trace: a history with get_seq_data calls in it ends in the same linker
 state — hence the same sequence bank, PCM bank and headers — as the history without them, and
-asking twice gives the same bytes.  (False before fix 795bab9: `link A:a Q A:b`.) -/
+asking twice gives the same bytes.  (False before fix 81bf063: `link A:a Q A:b`.) -/
 theorem C10_linker_idempotent_query (ops : List Op) (l : Linker) :
     runOps ops l = runOps (ops.filter fun o => match o with | .query => false | .add .. => true) l := by
   induction ops generalizing l with
